@@ -13,8 +13,9 @@ CONSTANTS
   ChangeMax = 2
   MaxI = 15
   IncAlgo = "fixed"
+  CopyAlgo = "takeover"
   Ops = {"new", "inc", "add", "update", "remove", "copy", "ustat"}
-INVARIANTS TypeOK Sorted CachesCoherent PathIndependence TwinAgreement EvidenceProposerAgrees Inc1Agree Proportional
+INVARIANTS TypeOK Sorted CachesCoherent PathIndependence TwinAgreement EvidenceProposerAgrees ReloadTransparent Inc1Agree Proportional
            Conservation HashIgnoresAccum HashOrderIndependent UpdateOrderIndependent Saturates
 PROPERTIES HashStable UpdateStatusRule
 ACTION_CONSTRAINT Edge
